@@ -12,7 +12,7 @@ use std::io::{self, Read, Write};
 use std::sync::{Arc, Condvar, Mutex, MutexGuard, RwLock};
 use std::thread::{self, JoinHandle, ThreadId};
 use std::time::{Duration, Instant};
-use varlink::verif::Point as P;
+pub use varlink::verif::Point as P;
 
 #[derive(Clone, Debug, PartialEq, Eq, Hash)]
 pub enum Op {
@@ -36,6 +36,8 @@ pub enum Op {
     Custom(String),
     /// acquisition of scheduled lock `id` (see `sync`), exclusive or shared; enabled while it would not block
     Lock(usize, bool),
+    /// blocking receive on scheduled channel `id`; enabled when a message is queued or every sender is gone
+    Recv(usize),
 }
 
 impl Op {
@@ -108,6 +110,11 @@ pub struct St {
     /// scheduled locks: id -> (readers, writer held)
     pub locks: HashMap<usize, (usize, bool)>,
     next_lock: usize,
+    /// scheduled channels: id -> (messages queued, senders alive)
+    pub chans: HashMap<usize, (usize, usize)>,
+    /// the job queue is observed through scheduled channels (`sync::mpsc`) instead of being mirrored from the
+    /// ExecBeforeSend / WorkerLoopTop / DropBeforeTerminate probes (which then are plain program points)
+    pub real_queue: bool,
 }
 
 pub struct Inner {
@@ -184,6 +191,8 @@ impl Sched {
                 clock_ms: 0,
                 locks: HashMap::new(),
                 next_lock: 0,
+                chans: HashMap::new(),
+                real_queue: false,
             }),
             cv: Condvar::new(),
             gen: NEXT_GEN.fetch_add(1, std::sync::atomic::Ordering::SeqCst),
@@ -760,7 +769,7 @@ fn core_enabled(st: &St, tid: usize, op: &Op, world: &dyn World) -> bool {
         Op::Write(_) => true,
         Op::Accept(_) => world.thread_enabled(st, tid, op),
         Op::EnvWait(k) => st.signals.contains(k),
-        Op::Probe(P::WorkerLoopTop) => !st.queue.is_empty(),
+        Op::Probe(P::WorkerLoopTop) => st.real_queue || !st.queue.is_empty(),
         Op::Probe(P::DropBeforeJoin(os)) => {
             // the joined thread must have exited; a born-but-never-run thread has no std id yet and may be the one
             st.threads.iter().any(|t| t.os == Some(*os) && t.exited) || (!st.threads.iter().any(|t| t.os == Some(*os)) && !st.threads.iter().any(|t| t.os.is_none() && !t.exited))
@@ -770,11 +779,18 @@ fn core_enabled(st: &St, tid: usize, op: &Op, world: &dyn World) -> bool {
             let (readers, writer) = st.locks.get(id).copied().unwrap_or((0, false));
             !writer && (!*write || readers == 0)
         }
+        Op::Recv(id) => {
+            let (queued, senders) = st.chans.get(id).copied().unwrap_or((0, 1));
+            queued > 0 || senders == 0
+        }
         Op::Probe(_) => true,
     }
 }
 
 fn core_on_grant(st: &mut St, tid: usize, op: &Op) {
+    if st.real_queue && matches!(op, Op::Probe(P::ExecBeforeSend) | Op::Probe(P::DropBeforeTerminate) | Op::Probe(P::WorkerLoopTop) | Op::Probe(P::WorkerBusyDec)) {
+        return;
+    }
     match op {
         Op::Probe(P::ExecBeforeSend) => {
             let j = st.next_job;
@@ -789,6 +805,11 @@ fn core_on_grant(st: &mut St, tid: usize, op: &Op) {
         Op::Probe(P::WorkerBusyDec) => st.threads[tid].holding = None,
         Op::EnvWait(k) => {
             st.signals.remove(k);
+        }
+        Op::Recv(id) => {
+            if let Some(e) = st.chans.get_mut(id) {
+                e.0 = e.0.saturating_sub(1);
+            }
         }
         Op::Lock(id, write) => {
             let e = st.locks.entry(*id).or_insert((0, false));
@@ -1304,6 +1325,300 @@ pub mod sync {
     impl<T: ?Sized> std::ops::DerefMut for MutexGuard<'_, T> {
         fn deref_mut(&mut self) -> &mut T {
             &mut self.g
+        }
+    }
+
+    /// Scheduled atomics: every operation is a scheduling point (always enabled), then the std operation.
+    pub mod atomic {
+        pub use std::sync::atomic::Ordering;
+
+        fn point(what: &'static str) {
+            if super::super::UNSCHEDULED.with(|c| c.get()) {
+                return;
+            }
+            if let Some(s) = super::super::current() {
+                s.yield_op(super::super::Op::Custom(format!("atomic {}", what)));
+            }
+        }
+
+        pub fn fence(o: Ordering) {
+            point("fence");
+            std::sync::atomic::fence(o)
+        }
+
+        macro_rules! int_atomic {
+            ($name:ident, $std:ident, $t:ty) => {
+                #[derive(Debug, Default)]
+                pub struct $name(std::sync::atomic::$std);
+                impl $name {
+                    pub const fn new(v: $t) -> Self {
+                        $name(std::sync::atomic::$std::new(v))
+                    }
+                    pub fn load(&self, o: Ordering) -> $t {
+                        point("load");
+                        self.0.load(o)
+                    }
+                    pub fn store(&self, v: $t, o: Ordering) {
+                        point("store");
+                        self.0.store(v, o)
+                    }
+                    pub fn swap(&self, v: $t, o: Ordering) -> $t {
+                        point("swap");
+                        self.0.swap(v, o)
+                    }
+                    pub fn fetch_add(&self, v: $t, o: Ordering) -> $t {
+                        point("fetch_add");
+                        self.0.fetch_add(v, o)
+                    }
+                    pub fn fetch_sub(&self, v: $t, o: Ordering) -> $t {
+                        point("fetch_sub");
+                        self.0.fetch_sub(v, o)
+                    }
+                    pub fn fetch_max(&self, v: $t, o: Ordering) -> $t {
+                        point("fetch_max");
+                        self.0.fetch_max(v, o)
+                    }
+                    pub fn fetch_min(&self, v: $t, o: Ordering) -> $t {
+                        point("fetch_min");
+                        self.0.fetch_min(v, o)
+                    }
+                    pub fn fetch_and(&self, v: $t, o: Ordering) -> $t {
+                        point("fetch_and");
+                        self.0.fetch_and(v, o)
+                    }
+                    pub fn fetch_or(&self, v: $t, o: Ordering) -> $t {
+                        point("fetch_or");
+                        self.0.fetch_or(v, o)
+                    }
+                    pub fn compare_exchange(&self, c: $t, n: $t, s: Ordering, f: Ordering) -> Result<$t, $t> {
+                        point("compare_exchange");
+                        self.0.compare_exchange(c, n, s, f)
+                    }
+                    pub fn compare_exchange_weak(&self, c: $t, n: $t, s: Ordering, f: Ordering) -> Result<$t, $t> {
+                        point("compare_exchange");
+                        // never fails spuriously under the scheduler: the retry loop would be an unbounded source of choices
+                        self.0.compare_exchange(c, n, s, f)
+                    }
+                    pub fn fetch_update<F: FnMut($t) -> Option<$t>>(&self, s: Ordering, f: Ordering, g: F) -> Result<$t, $t> {
+                        point("fetch_update");
+                        self.0.fetch_update(s, f, g)
+                    }
+                    pub fn get_mut(&mut self) -> &mut $t {
+                        self.0.get_mut()
+                    }
+                    pub fn into_inner(self) -> $t {
+                        self.0.into_inner()
+                    }
+                }
+                impl From<$t> for $name {
+                    fn from(v: $t) -> Self {
+                        $name::new(v)
+                    }
+                }
+            };
+        }
+        int_atomic!(AtomicUsize, AtomicUsize, usize);
+        int_atomic!(AtomicIsize, AtomicIsize, isize);
+        int_atomic!(AtomicU64, AtomicU64, u64);
+        int_atomic!(AtomicI64, AtomicI64, i64);
+        int_atomic!(AtomicU32, AtomicU32, u32);
+        int_atomic!(AtomicI32, AtomicI32, i32);
+        int_atomic!(AtomicU8, AtomicU8, u8);
+
+        #[derive(Debug, Default)]
+        pub struct AtomicBool(std::sync::atomic::AtomicBool);
+        impl AtomicBool {
+            pub const fn new(v: bool) -> Self {
+                AtomicBool(std::sync::atomic::AtomicBool::new(v))
+            }
+            pub fn load(&self, o: Ordering) -> bool {
+                point("load");
+                self.0.load(o)
+            }
+            pub fn store(&self, v: bool, o: Ordering) {
+                point("store");
+                self.0.store(v, o)
+            }
+            pub fn swap(&self, v: bool, o: Ordering) -> bool {
+                point("swap");
+                self.0.swap(v, o)
+            }
+            pub fn fetch_and(&self, v: bool, o: Ordering) -> bool {
+                point("fetch_and");
+                self.0.fetch_and(v, o)
+            }
+            pub fn fetch_or(&self, v: bool, o: Ordering) -> bool {
+                point("fetch_or");
+                self.0.fetch_or(v, o)
+            }
+            pub fn fetch_xor(&self, v: bool, o: Ordering) -> bool {
+                point("fetch_xor");
+                self.0.fetch_xor(v, o)
+            }
+            pub fn compare_exchange(&self, c: bool, n: bool, s: Ordering, f: Ordering) -> Result<bool, bool> {
+                point("compare_exchange");
+                self.0.compare_exchange(c, n, s, f)
+            }
+            pub fn compare_exchange_weak(&self, c: bool, n: bool, s: Ordering, f: Ordering) -> Result<bool, bool> {
+                point("compare_exchange");
+                self.0.compare_exchange(c, n, s, f)
+            }
+            pub fn get_mut(&mut self) -> &mut bool {
+                self.0.get_mut()
+            }
+            pub fn into_inner(self) -> bool {
+                self.0.into_inner()
+            }
+        }
+        impl From<bool> for AtomicBool {
+            fn from(v: bool) -> Self {
+                AtomicBool::new(v)
+            }
+        }
+    }
+
+    /// Scheduled unbounded channel: `send` is a scheduling point, `recv` parks until a message is queued or every
+    /// sender is gone (so a thread blocked in `recv` is known to the scheduler as disabled, not as "blocked").
+    pub mod mpsc {
+        use super::super::{current, Op, Sched, UNSCHEDULED};
+        pub use std::sync::mpsc::{RecvError, RecvTimeoutError, SendError, TryRecvError};
+        use std::sync::Arc;
+
+        struct Chan {
+            /// (scheduler generation, id)
+            id: std::sync::Mutex<(u64, usize)>,
+            /// book-keeping that also works while no scheduler is in control: (queued, senders)
+            counts: std::sync::Mutex<(usize, usize)>,
+        }
+
+        impl Chan {
+            fn sched(&self) -> Option<(Sched, usize)> {
+                if UNSCHEDULED.with(|c| c.get()) {
+                    return None;
+                }
+                let s = current()?;
+                let mut st = s.lock();
+                if st.free_run {
+                    return None;
+                }
+                let mut t = self.id.lock().unwrap_or_else(|e| e.into_inner());
+                if t.0 != s.0.gen {
+                    *t = (s.0.gen, 1_000_000 + st.chans.len());
+                    let c = *self.counts.lock().unwrap_or_else(|e| e.into_inner());
+                    st.chans.insert(t.1, c);
+                }
+                let id = t.1;
+                drop(t);
+                drop(st);
+                Some((s, id))
+            }
+            fn publish(&self, f: impl FnOnce(&mut (usize, usize))) {
+                let mut c = self.counts.lock().unwrap_or_else(|e| e.into_inner());
+                f(&mut c);
+                let now = *c;
+                drop(c);
+                if let Some(s) = current() {
+                    let t = *self.id.lock().unwrap_or_else(|e| e.into_inner());
+                    if t.0 == s.0.gen {
+                        let mut st = s.lock();
+                        st.chans.insert(t.1, now);
+                        // a parked receiver may have become enabled: the controller re-evaluates at its next quiescent point
+                    }
+                }
+            }
+        }
+
+        pub struct Sender<T> {
+            inner: std::sync::mpsc::Sender<T>,
+            chan: Arc<Chan>,
+        }
+        pub struct Receiver<T> {
+            inner: std::sync::mpsc::Receiver<T>,
+            chan: Arc<Chan>,
+        }
+
+        pub fn channel<T>() -> (Sender<T>, Receiver<T>) {
+            let (tx, rx) = std::sync::mpsc::channel();
+            let chan = Arc::new(Chan { id: std::sync::Mutex::new((0, 0)), counts: std::sync::Mutex::new((0, 1)) });
+            (Sender { inner: tx, chan: chan.clone() }, Receiver { inner: rx, chan })
+        }
+
+        impl<T> Sender<T> {
+            pub fn send(&self, t: T) -> Result<(), SendError<T>> {
+                if let Some((s, _)) = self.chan.sched() {
+                    s.yield_op(Op::Custom("send".into()));
+                }
+                let r = self.inner.send(t);
+                if r.is_ok() {
+                    self.chan.publish(|c| c.0 += 1);
+                }
+                r
+            }
+        }
+        impl<T> Clone for Sender<T> {
+            fn clone(&self) -> Self {
+                self.chan.publish(|c| c.1 += 1);
+                Sender { inner: self.inner.clone(), chan: self.chan.clone() }
+            }
+        }
+        impl<T> Drop for Sender<T> {
+            fn drop(&mut self) {
+                self.chan.publish(|c| c.1 = c.1.saturating_sub(1));
+            }
+        }
+        impl<T> std::fmt::Debug for Sender<T> {
+            fn fmt(&self, f: &mut std::fmt::Formatter<'_>) -> std::fmt::Result {
+                f.write_str("Sender { .. }")
+            }
+        }
+
+        impl<T> Receiver<T> {
+            pub fn recv(&self) -> Result<T, RecvError> {
+                if let Some((s, id)) = self.chan.sched() {
+                    s.yield_op(Op::Recv(id));
+                    // granted: a message is there (or every sender is gone), the real receive does not block
+                    let r = self.inner.recv();
+                    if r.is_ok() {
+                        let mut c = self.chan.counts.lock().unwrap_or_else(|e| e.into_inner());
+                        c.0 = c.0.saturating_sub(1);
+                    }
+                    return r;
+                }
+                let r = self.inner.recv();
+                if r.is_ok() {
+                    self.chan.publish(|c| c.0 = c.0.saturating_sub(1));
+                }
+                r
+            }
+            pub fn try_recv(&self) -> Result<T, TryRecvError> {
+                if let Some((s, _)) = self.chan.sched() {
+                    s.yield_op(Op::Custom("try_recv".into()));
+                }
+                let r = self.inner.try_recv();
+                if r.is_ok() {
+                    self.chan.publish(|c| c.0 = c.0.saturating_sub(1));
+                }
+                r
+            }
+            pub fn recv_timeout(&self, d: std::time::Duration) -> Result<T, RecvTimeoutError> {
+                // under the scheduler a timed receive is a non-blocking attempt (time does not pass by itself)
+                if self.chan.sched().is_some() {
+                    return self.try_recv().map_err(|e| match e {
+                        TryRecvError::Empty => RecvTimeoutError::Timeout,
+                        TryRecvError::Disconnected => RecvTimeoutError::Disconnected,
+                    });
+                }
+                let r = self.inner.recv_timeout(d);
+                if r.is_ok() {
+                    self.chan.publish(|c| c.0 = c.0.saturating_sub(1));
+                }
+                r
+            }
+        }
+        impl<T> std::fmt::Debug for Receiver<T> {
+            fn fmt(&self, f: &mut std::fmt::Formatter<'_>) -> std::fmt::Result {
+                f.write_str("Receiver { .. }")
+            }
         }
     }
 }
